@@ -1,2 +1,430 @@
-(* Proofs/TotalProofsC.v *)
+(* Proofs/TotalProofsC.v — C11, BED: every record the reader accepts from an
+   arbitrary input is in the domain of C04 (given that Chrom and Name are free
+   of TAB/CR/LF) and has zero values beyond its N fields, hence is a fixed point
+   of Write -> Reader.  SAM: the accepted integer fields are Go ints, the text
+   fields are TAB-free, the tag map has unique names (partial result). *)
 From Bio Require Import Base.
+From Bio.Model Require Bed Sam.
+From Bio.Model Require Import Bed.
+From Bio.Spec Require Import BedSpec.
+From Bio.Proofs Require BedProofsC SamProofsB.
+
+(* ---- leaves ---------------------------------------------------------------------------------- *)
+Lemma int64b_int64 z : int64b z = true -> int64 z.
+Proof. unfold int64b, int64. intros H. apply andb_prop in H. destruct H as [A B]. lia. Qed.
+
+Lemma atoi_int64 s z : atoi s = Some z -> int64 z.
+Proof.
+  unfold atoi. match goal with |- match ?x with _ => _ end = _ -> _ => destruct x as [y|] end; [|discriminate].
+  destruct (int64b y) eqn:E; [|discriminate]. intros H. injection H as <-. apply int64b_int64, E.
+Qed.
+
+Lemma int64_0 : int64 0.
+Proof. unfold int64. lia. Qed.
+
+Lemma opt_atoi_int64 s z : opt_atoi s = Some z -> int64 z.
+Proof.
+  unfold opt_atoi. destruct s; [intros H; injection H as <-; apply int64_0 | apply atoi_int64].
+Qed.
+
+Lemma atoi_all_int64 : forall l zs, atoi_all l = Some zs -> Forall int64 zs.
+Proof.
+  induction l as [|x r IH]; intros zs H; cbn [atoi_all] in H.
+  - injection H as <-. constructor.
+  - destruct (atoi x) as [z|] eqn:E; [|discriminate].
+    destruct (atoi_all r) as [zs'|]; [|discriminate]. injection H as <-.
+    constructor; [eapply atoi_int64, E | apply IH; reflexivity].
+Qed.
+
+Lemma parse_ints_int64 s zs : parse_ints s = Some zs -> Forall int64 zs.
+Proof.
+  unfold parse_ints. destruct s; [intros H; injection H as <-; constructor | apply atoi_all_int64].
+Qed.
+
+Lemma pu_loop_bound base maxv : forall s n us r us',
+  n <= maxv -> pu_loop base maxv s n us = Some (r, us') -> r <= maxv.
+Proof.
+  induction s as [|c s IH]; intros n us r us' Hn H; cbn [pu_loop] in H.
+  - injection H as <- _. exact Hn.
+  - destruct (c =? 95); [eapply IH; eassumption|].
+    destruct (digit_val c) as [d|]; [|discriminate].
+    destruct (base <=? d); [discriminate|].
+    destruct (maxv <? n * base + d) eqn:E; [discriminate|].
+    apply N.ltb_ge in E. eapply IH; eassumption.
+Qed.
+
+Lemma parse_uint8_lt s n : parse_uint8 s = Some n -> n < 256.
+Proof.
+  unfold parse_uint8. destruct s as [|c0 r0]; [discriminate|].
+  match goal with |- (let '(base, body) := ?x in _) = _ -> _ => destruct x as [base body] end.
+  destruct (pu_loop base 255 body 0 false) as [[m us]|] eqn:E; [|discriminate].
+  assert (m <= 255) by (eapply pu_loop_bound; [|exact E]; lia).
+  destruct (us && negb (underscore_ok (c0 :: r0))); [discriminate|].
+  intros H0. injection H0 as <-. lia.
+Qed.
+
+Lemma parse_rgb_ok s c : parse_rgb s = Some c -> rgb_ok c.
+Proof.
+  unfold parse_rgb. destruct s as [|b s].
+  - intros H. injection H as <-. cbn. lia.
+  - destruct (split_on COMMA (b :: s)) as [|p [|q [|r [|? ?]]]]; try discriminate.
+    destruct (parse_uint8 p) as [x|] eqn:Ex; [|discriminate].
+    destruct (parse_uint8 q) as [y|] eqn:Ey; [|discriminate].
+    destruct (parse_uint8 r) as [z|] eqn:Ez; [|discriminate].
+    intros H. injection H as <-. cbn. repeat split; eapply parse_uint8_lt; eassumption.
+Qed.
+
+Lemma beqb_true a : forall b, beqb a b = true -> a = b.
+Proof.
+  induction a as [|x a IH]; intros [|y b] H; cbn [beqb] in H; try discriminate; [reflexivity|].
+  apply andb_prop in H. destruct H as [E H]. apply N.eqb_eq in E. subst. f_equal. apply IH, H.
+Qed.
+
+Lemma strand_ok_valid s : strand_ok s = true -> strand_valid s.
+Proof.
+  unfold strand_ok, strand_valid. intros H.
+  repeat (apply orb_prop in H; destruct H as [H|H]); apply beqb_true in H; auto.
+Qed.
+
+(* the first field of a split is a prefix of the text *)
+Lemma split_on_prefix sep : forall s f fs, split_on sep s = f :: fs -> exists rest, s = f ++ rest.
+Proof.
+  induction s as [|c r IH]; intros f fs H; cbn [split_on] in H.
+  - injection H as <- _. exists []. reflexivity.
+  - destruct (c =? sep).
+    + injection H as <- _. exists (c :: r). reflexivity.
+    + destruct (split_on sep r) as [|g gs] eqn:E.
+      * injection H as <- _. exists r. reflexivity.
+      * injection H as <- _. destruct (IH g gs eq_refl) as [rest ->]. exists rest. reflexivity.
+Qed.
+
+Lemma nth_pad (fields : list bytes) m i : (length fields <= i)%nat -> nth i (fields ++ repeat [] m) [] = [].
+Proof.
+  intros H. rewrite app_nth2 by lia.
+  generalize (i - length fields)%nat. induction m as [|m IH]; intros [|j]; cbn [repeat nth]; auto.
+Qed.
+
+(* ---- what parseLine's success says about the record ------------------------------------------ *)
+Lemma parse_fields_facts n f b : parse_fields n f = Ok b ->
+  b_n b = n /\ b_chrom b = nth 0 f [] /\ b_name b = nth 3 f [] /\ b_strand b = nth 5 f []
+  /\ atoi (nth 1 f []) = Some (b_start b) /\ atoi (nth 2 f []) = Some (b_end b)
+  /\ opt_atoi (nth 4 f []) = Some (b_score b) /\ strand_ok (nth 5 f []) = true
+  /\ opt_atoi (nth 6 f []) = Some (b_thick_start b) /\ opt_atoi (nth 7 f []) = Some (b_thick_end b)
+  /\ parse_rgb (nth 8 f []) = Some (b_rgb b) /\ opt_atoi (nth 9 f []) = Some (b_block_count b)
+  /\ parse_ints (nth 10 f []) = Some (b_block_sizes b)
+  /\ parse_ints (nth 11 f []) = Some (b_block_starts b)
+  /\ Z.of_nat (length (b_block_sizes b)) = b_block_count b
+  /\ Z.of_nat (length (b_block_starts b)) = b_block_count b.
+Proof.
+  unfold parse_fields.
+  destruct (atoi (nth 1 f [])) as [cs|]; [|discriminate].
+  destruct (atoi (nth 2 f [])) as [ce|]; [|discriminate].
+  destruct (opt_atoi (nth 4 f [])) as [sc|]; [|discriminate].
+  destruct (strand_ok (nth 5 f [])) eqn:Es; cbn [negb]; [|discriminate].
+  destruct (opt_atoi (nth 6 f [])) as [ts|]; [|discriminate].
+  destruct (opt_atoi (nth 7 f [])) as [te|]; [|discriminate].
+  destruct (parse_rgb (nth 8 f [])) as [rgb|]; [|discriminate].
+  destruct (opt_atoi (nth 9 f [])) as [bc|]; [|discriminate].
+  destruct (parse_ints (nth 10 f [])) as [sizes|]; [|discriminate].
+  destruct (parse_ints (nth 11 f [])) as [starts|]; [|discriminate].
+  destruct (Z.of_nat (length sizes) =? bc)%Z eqn:E1; cbn [negb]; [|discriminate].
+  destruct (Z.of_nat (length starts) =? bc)%Z eqn:E2; cbn [negb]; [|discriminate].
+  intros H. injection H as <-. cbn.
+  apply Z.eqb_eq in E1. apply Z.eqb_eq in E2. repeat split; auto.
+Qed.
+
+Definition bed_clean (b : bed) : Prop := text_ok (b_chrom b) /\ text_ok (b_name b).
+
+Lemma opt_atoi_nil z : opt_atoi [] = Some z -> z = 0%Z.
+Proof. cbn. intros H. injection H as <-. reflexivity. Qed.
+Lemma parse_rgb_nil c : parse_rgb [] = Some c -> c = (0, 0, 0).
+Proof. cbn. intros H. injection H as <-. reflexivity. Qed.
+Lemma parse_ints_nil l : parse_ints [] = Some l -> l = [].
+Proof. cbn. intros H. injection H as <-. reflexivity. Qed.
+
+(* an accepted record: parseLine succeeded on the TAB-split of a line that is not
+   empty and not a comment *)
+Lemma parse_line_accepts c text b :
+  (c =? 35) = false -> parse_line (split_on TAB (c :: text)) = Ok b -> bed_clean b ->
+  bed_ok b /\ first_n b = b.
+Proof.
+  intros Hc H [Cchrom Cname]. unfold parse_line in H.
+  set (fields := split_on TAB (c :: text)) in *.
+  destruct ((length fields <? 3)%nat || (12 <? length fields)%nat) eqn:El; [discriminate|].
+  apply orb_false_elim in El. destruct El as [L1 L2].
+  apply Nat.ltb_ge in L1. apply Nat.ltb_ge in L2.
+  apply parse_fields_facts in H.
+  destruct H as (Hn & Hchrom & Hname & Hstrand & Hs & He & Hsc & Hso & Hts & Hte & Hrgb & Hbc
+                 & Hsz & Hst & Hlsz & Hlst).
+  set (k := length fields) in *.
+  assert (PAD : forall i, (k <= i)%nat -> nth i (fields ++ repeat [] (12 - k)) [] = []).
+  { intros i Hi. apply nth_pad. exact Hi. }
+  (* zero values beyond N *)
+  assert (FN : first_n b = b).
+  { destruct b as [n chrom cs ce name sc strand ts te rgb bc sizes starts].
+    cbn [b_n b_chrom b_start b_end b_name b_score b_strand b_thick_start b_thick_end b_rgb
+         b_block_count b_block_sizes b_block_starts] in *.
+    unfold first_n. cbn [b_n b_chrom b_start b_end b_name b_score b_strand b_thick_start b_thick_end b_rgb
+         b_block_count b_block_sizes b_block_starts].
+    subst n.
+    assert (G : forall i : nat, (Z.of_nat k >? Z.of_nat i)%Z = false -> (k <= i)%nat).
+    { intros i Hi. rewrite Z.gtb_ltb in Hi. apply Z.ltb_ge in Hi. lia. }
+    f_equal.
+    - destruct (Z.of_nat k >? 3)%Z eqn:E; [reflexivity|]. apply (G 3%nat) in E. rewrite Hname, PAD by exact E. reflexivity.
+    - destruct (Z.of_nat k >? 4)%Z eqn:E; [reflexivity|]. apply (G 4%nat) in E. rewrite PAD in Hsc by exact E.
+      symmetry. apply opt_atoi_nil, Hsc.
+    - destruct (Z.of_nat k >? 5)%Z eqn:E; [reflexivity|]. apply (G 5%nat) in E. rewrite Hstrand, PAD by exact E. reflexivity.
+    - destruct (Z.of_nat k >? 6)%Z eqn:E; [reflexivity|]. apply (G 6%nat) in E. rewrite PAD in Hts by exact E.
+      symmetry. apply opt_atoi_nil, Hts.
+    - destruct (Z.of_nat k >? 7)%Z eqn:E; [reflexivity|]. apply (G 7%nat) in E. rewrite PAD in Hte by exact E.
+      symmetry. apply opt_atoi_nil, Hte.
+    - destruct (Z.of_nat k >? 8)%Z eqn:E; [reflexivity|]. apply (G 8%nat) in E. rewrite PAD in Hrgb by exact E.
+      symmetry. apply parse_rgb_nil, Hrgb.
+    - destruct (Z.of_nat k >? 9)%Z eqn:E; [reflexivity|]. apply (G 9%nat) in E. rewrite PAD in Hbc by exact E.
+      symmetry. apply opt_atoi_nil, Hbc.
+    - destruct (Z.of_nat k >? 10)%Z eqn:E; [reflexivity|]. apply (G 10%nat) in E. rewrite PAD in Hsz by exact E.
+      symmetry. apply parse_ints_nil, Hsz.
+    - destruct (Z.of_nat k >? 11)%Z eqn:E; [reflexivity|]. apply (G 11%nat) in E. rewrite PAD in Hst by exact E.
+      symmetry. apply parse_ints_nil, Hst. }
+  split; [|exact FN].
+  split; [rewrite Hn; lia|]. rewrite FN.
+  unfold fields_ok. repeat match goal with |- _ /\ _ => split end.
+  - exact Cchrom.
+  - (* not a comment line: the first field is a prefix of the text *)
+    intros r Hr. rewrite Hchrom in Hr.
+    destruct fields as [|f0 fs] eqn:Ef; [cbn [length] in k; subst k; lia|].
+    cbn [app nth] in Hr. subst f0.
+    destruct (split_on_prefix TAB (c :: text) (35 :: r) fs Ef) as [rest E].
+    cbn [app] in E. injection E as E _. subst c. discriminate.
+  - exact Cname.
+  - rewrite Hstrand. apply strand_ok_valid, Hso.
+  - eapply atoi_int64, Hs.
+  - eapply atoi_int64, He.
+  - eapply opt_atoi_int64, Hsc.
+  - eapply opt_atoi_int64, Hts.
+  - eapply opt_atoi_int64, Hte.
+  - eapply parse_rgb_ok, Hrgb.
+  - eapply opt_atoi_int64, Hbc.
+  - eapply parse_ints_int64, Hsz.
+  - eapply parse_ints_int64, Hst.
+  - exact Hlsz.
+  - exact Hlst.
+Qed.
+
+Lemma do_line_yield n raw b n' : do_line n raw = Yield b n' ->
+  exists c text, (c =? 35) = false /\ parse_line (split_on TAB (c :: text)) = Ok b.
+Proof.
+  unfold do_line. destruct (drop_cr raw) as [|c text]; [discriminate|].
+  destruct (c =? 35) eqn:Ec; [discriminate|].
+  match goal with |- (if negb ?x then _ else _) = _ -> _ => destruct x end; cbn [negb]; [|discriminate].
+  destruct (parse_line (split_on TAB (c :: text))) as [b0| |] eqn:E; try discriminate.
+  intros H. injection H as <- _. exists c, text. split; [exact Ec | exact E].
+Qed.
+
+Lemma dec_lines_in : forall ls n tail t b, In (Rec b) (dec_lines n ls tail t) ->
+  exists n0 raw n', do_line n0 raw = Yield b n'.
+Proof.
+  induction ls as [|l r IH]; intros n tail t b H; cbn [dec_lines] in H.
+  - destruct t; [|destruct H as [H|[]]; discriminate].
+    destruct (do_line n tail) as [| |b0 n0] eqn:E.
+    + destruct H.
+    + destruct H as [H|[]]; discriminate.
+    + destruct H as [H|[]]. injection H as ->. exists n, tail, n0. exact E.
+  - destruct (do_line n l) as [| |b0 n0] eqn:E.
+    + eapply IH, H.
+    + destruct H as [H|[]]; discriminate.
+    + destruct H as [H|H]; [injection H as ->; exists n, l, n0; exact E | eapply IH, H].
+Qed.
+
+Lemma bed_accepted_ok x t b : In (Rec b) (decode x t) -> bed_clean b -> bed_ok b /\ first_n b = b.
+Proof.
+  unfold decode. destruct (rs_lines x) as [ls tail]. intros H Hc.
+  destruct (dec_lines_in _ _ _ _ _ H) as [n0 [raw [n' E]]].
+  destruct (do_line_yield _ _ _ _ E) as [c [text [Ec Ep]]].
+  eapply parse_line_accepts; eassumption.
+Qed.
+
+Lemma bed_fixed_point x t b : In (Rec b) (decode x t) -> bed_clean b ->
+  exists w, write b = Ok w /\ decode w TEOF = [Rec b].
+Proof.
+  intros H Hc. destruct (bed_accepted_ok x t b H Hc) as [Hok FN].
+  destruct (BedProofsC.roundtrip b Hok) as [w [Hw Hd]]. exists w. split; [exact Hw|].
+  rewrite FN in Hd. exact Hd.
+Qed.
+
+(* ================================================================================================
+   SAM: an accepted alignment record is in the domain of C03 — its five integers are Go
+   ints, QNAME does not start with '@', tag names are unique, 'i' values are ints and 'H'
+   values are bytes by construction — given the cleanliness of its text (the six text
+   fields, tag names, 'A' and 'Z' values free of the delimiters) and strconv's contract for
+   the 'f' values it carries.  So it is a fixed point of Write -> ReaderHeader up to the
+   order of the tag list ([sam_eq]: same eleven fields, same map).  Normalisations happen at
+   the FIRST read and are part of the accepted record: a 'B' tag is kept as a string (TZ),
+   "+5" is 5, upper-case hex digits denote the same bytes.                                       *)
+From Bio.Spec Require SamSpec.
+From Bio.Proofs Require SamProofsC.
+
+Definition tagval_clean (o : foracle) (v : Sam.tagval) : Prop :=
+  match v with
+  | Sam.TA b => memb b [TAB; CR; LF] = false
+  | Sam.TF x => SamSpec.float_ok o x
+  | Sam.TZ s => SamSpec.tsv_clean s
+  | Sam.TI _ | Sam.TH _ => True
+  end.
+
+Definition sam_clean (o : foracle) (r : Sam.sam) : Prop :=
+  SamSpec.tsv_clean (Sam.s_qname r) /\ SamSpec.tsv_clean (Sam.s_rname r)
+  /\ SamSpec.tsv_clean (Sam.s_cigar r) /\ SamSpec.tsv_clean (Sam.s_rnext r)
+  /\ SamSpec.tsv_clean (Sam.s_seq r) /\ SamSpec.tsv_clean (Sam.s_qual r)
+  /\ Forall (fun t => clean [Sam.COLON; TAB; CR; LF] (fst t) /\ tagval_clean o (snd t)) (Sam.s_tags r).
+
+Definition tagval_constr (v : Sam.tagval) : Prop :=
+  match v with
+  | Sam.TI z => int64 z
+  | Sam.TH h => Forall (fun b => b < 256) h
+  | _ => True
+  end.
+
+Lemma hex_val_lt c x : Sam.hex_val c = Some x -> x < 16.
+Proof.
+  unfold Sam.hex_val.
+  destruct ((48 <=? c) && (c <=? 57)) eqn:E1.
+  { intros H. injection H as <-. apply andb_prop in E1. destruct E1 as [A B].
+    apply N.leb_le in A. apply N.leb_le in B. lia. }
+  destruct ((97 <=? c) && (c <=? 102)) eqn:E2.
+  { intros H. injection H as <-. apply andb_prop in E2. destruct E2 as [A B].
+    apply N.leb_le in A. apply N.leb_le in B. lia. }
+  destruct ((65 <=? c) && (c <=? 70)) eqn:E3; [|discriminate].
+  intros H. injection H as <-. apply andb_prop in E3. destruct E3 as [A B].
+  apply N.leb_le in A. apply N.leb_le in B. lia.
+Qed.
+
+Lemma hex_decode_lt : forall n s h, (length s <= n)%nat ->
+  Sam.hex_decode s = Some h -> Forall (fun b => b < 256) h.
+Proof.
+  induction n as [|n IH]; intros s h Hn H.
+  - destruct s; [|cbn [length] in Hn; lia]. injection H as <-. constructor.
+  - destruct s as [|a [|b r]]; cbn [Sam.hex_decode] in H.
+    + injection H as <-. constructor.
+    + discriminate.
+    + destruct (Sam.hex_val a) as [x|] eqn:Ea; [|discriminate].
+      destruct (Sam.hex_val b) as [y|] eqn:Eb; [|discriminate].
+      destruct (Sam.hex_decode r) as [t|] eqn:Er; [|discriminate].
+      injection H as <-. apply hex_val_lt in Ea. apply hex_val_lt in Eb.
+      constructor; [cbn beta; destruct x as [|q]; [lia|]; change (N.pos q~0~0~0~0) with (16 * N.pos q); lia|]. apply (IH r t); [cbn [length] in Hn; lia | exact Er].
+Qed.
+
+Lemma parse_tag_value_constr o ty v tv : Sam.parse_tag_value o ty v = Some tv -> tagval_constr tv.
+Proof.
+  unfold Sam.parse_tag_value.
+  destruct (beqb ty [65]).
+  { destruct v as [|b [|? ?]]; try discriminate. intros H. injection H as <-. exact I. }
+  destruct (beqb ty [105]).
+  { destruct (atoi v) as [z|] eqn:E; [|discriminate]. intros H. injection H as <-.
+    cbn. eapply atoi_int64, E. }
+  destruct (beqb ty [102]).
+  { destruct (parseF o v); [|discriminate]. intros H. injection H as <-. exact I. }
+  destruct (beqb ty [90]).
+  { intros H. injection H as <-. exact I. }
+  destruct (beqb ty [72]).
+  { destruct (Sam.hex_decode v) as [h|] eqn:E; [|discriminate]. intros H. injection H as <-.
+    cbn. eapply hex_decode_lt; [|exact E]. apply Nat.le_refl. }
+  destruct (beqb ty [66]); [|discriminate].
+  intros H. injection H as <-. exact I.
+Qed.
+
+Lemma beqb_refl a : beqb a a = true.
+Proof. induction a as [|x a IH]; [reflexivity|]. cbn [beqb]. rewrite N.eqb_refl, IH. reflexivity. Qed.
+
+Lemma tag_set_in k v : forall m x, In x (map fst (Sam.tag_set k v m)) -> x = k \/ In x (map fst m).
+Proof.
+  induction m as [|[k' v'] r IH]; intros x H; cbn [Sam.tag_set] in H.
+  - cbn in H. destruct H as [H|[]]. left. auto.
+  - destruct (beqb k' k); cbn [map fst In] in H |- *.
+    + right. exact H.
+    + destruct H as [H|H]; [right; left; exact H|].
+      destruct (IH x H) as [E|E]; [left; exact E | right; right; exact E].
+Qed.
+
+Lemma tag_set_inv (Q : Sam.tagval -> Prop) k v : forall m,
+  Q v -> NoDup (map fst m) -> Forall (fun t => Q (snd t)) m ->
+  NoDup (map fst (Sam.tag_set k v m)) /\ Forall (fun t => Q (snd t)) (Sam.tag_set k v m).
+Proof.
+  induction m as [|[k' v'] r IH]; intros Hv Hnd HF; cbn [Sam.tag_set].
+  - split; [cbn; constructor; [intros []|constructor] | constructor; [exact Hv|constructor]].
+  - cbn [map fst] in Hnd. inversion Hnd as [|? ? Hnin Hnd']. subst. inversion HF as [|? ? Hq HF']. subst.
+    destruct (beqb k' k) eqn:E.
+    + split; [cbn [map fst]; constructor; assumption | constructor; [exact Hv | exact HF']].
+    + destruct (IH Hv Hnd' HF') as [A B]. split.
+      * cbn [map fst]. constructor; [|exact A]. intros Hin.
+        destruct (tag_set_in k v r k' Hin) as [->|Hin']; [rewrite beqb_refl in E; discriminate | contradiction].
+      * constructor; [exact Hq | exact B].
+Qed.
+
+Lemma parse_tags_from_inv o : forall values m m',
+  Sam.parse_tags_from o m values = Ok m' ->
+  NoDup (map fst m) -> Forall (fun t => tagval_constr (snd t)) m ->
+  NoDup (map fst m') /\ Forall (fun t => tagval_constr (snd t)) m'.
+Proof.
+  induction values as [|f rest IH]; intros m m' H Hnd HF; cbn [Sam.parse_tags_from] in H.
+  - injection H as <-. split; assumption.
+  - destruct (Sam.split_tag f) as [[[name ty] v]|]; [|discriminate].
+    destruct (Sam.parse_tag_value o ty v) as [tv|] eqn:E; [|discriminate].
+    destruct (tag_set_inv tagval_constr name tv m (parse_tag_value_constr o ty v tv E) Hnd HF) as [A B].
+    exact (IH _ _ H A B).
+Qed.
+
+Lemma parse_line_facts o f0 fs r : Sam.parse_line o (f0 :: fs) = Ok r ->
+  Sam.s_qname r = f0 /\ int64 (Sam.s_flag r) /\ int64 (Sam.s_pos r) /\ int64 (Sam.s_mapq r)
+  /\ int64 (Sam.s_pnext r) /\ int64 (Sam.s_tlen r)
+  /\ NoDup (map fst (Sam.s_tags r)) /\ Forall (fun t => tagval_constr (snd t)) (Sam.s_tags r).
+Proof.
+  unfold Sam.parse_line.
+  do 10 (destruct fs as [|? fs]; [discriminate|]).
+  unfold Sam.parse_ints. cbn [length Nat.eqb Sam.parse_ints_loop].
+  destruct (atoi b) as [fl|] eqn:E1; [|discriminate].
+  destruct (atoi b1) as [po|] eqn:E2; [|discriminate].
+  destruct (atoi b2) as [mq|] eqn:E3; [|discriminate].
+  destruct (atoi b5) as [pn|] eqn:E4; [|discriminate].
+  destruct (atoi b6) as [tl|] eqn:E5; [|discriminate].
+  cbn [obind]. unfold Sam.parse_tags.
+  destruct (Sam.parse_tags_from o [] fs) as [m| |] eqn:Et; try discriminate.
+  cbn [obind]. intros H. injection H as <-. cbn.
+  destruct (parse_tags_from_inv o fs [] m Et (NoDup_nil _) (Forall_nil _)) as [A B].
+  repeat match goal with |- _ /\ _ => split end; auto; eapply atoi_int64; eassumption.
+Qed.
+
+Lemma sam_accepted_ok o x t r :
+  In (Rec (Sam.Aln r)) (Sam.reader_header o x t) -> sam_clean o r -> SamSpec.sam_ok o r.
+Proof.
+  intros Hin (C1 & C2 & C3 & C4 & C5 & C6 & CT).
+  (* the item comes from one line *)
+  assert (L : exists raw, In (Rec (Sam.Aln r)) (Sam.process_line o raw)).
+  { unfold Sam.reader_header in Hin. destruct (rs_lines x) as [ls tail].
+    apply in_app_or in Hin. destruct Hin as [Hin|Hin].
+    - apply in_flat_map in Hin. destruct Hin as [raw [_ H]]. exists raw. exact H.
+    - destruct t; [exists tail; exact Hin | destruct Hin as [H|[]]; discriminate]. }
+  destruct L as [raw L]. unfold Sam.process_line in L.
+  destruct (drop_cr raw) as [|c text] eqn:Ed; [destruct L|].
+  destruct (c =? 64) eqn:Ec; [destruct L as [H|[]]; discriminate|].
+  destruct (split_on TAB (c :: text)) as [|f0 fs] eqn:Es.
+  { exfalso. cbn [split_on] in Es. destruct (c =? TAB); [discriminate|].
+    destruct (split_on TAB text); discriminate. }
+  destruct (Sam.parse_line o (f0 :: fs)) as [r0| |] eqn:Ep; try (destruct L as [H|[]]; discriminate).
+  destruct L as [H|[]]. injection H as ->.
+  destruct (parse_line_facts o f0 fs r Ep) as (Hq & I1 & I2 & I3 & I4 & I5 & ND & HC).
+  constructor; try assumption.
+  - (* QNAME does not start with '@': it is a prefix of the line *)
+    rewrite Hq. destruct (split_on_prefix TAB (c :: text) f0 fs Es) as [rest E].
+    destruct f0 as [|c' f0']; [exact I|]. cbn [app] in E. injection E as -> _.
+    cbn. intros ->. discriminate.
+  - (* tags: cleanliness + what holds by construction *)
+    rewrite Forall_forall in CT, HC |- *. intros [k v] Hkv.
+    destruct (CT _ Hkv) as [Ck Cv]. specialize (HC _ Hkv). cbn [fst snd] in *.
+    split; [exact Ck|]. destruct v; cbn in *; assumption.
+Qed.
+
+Lemma sam_fixed_point o x t r :
+  In (Rec (Sam.Aln r)) (Sam.reader_header o x t) -> sam_clean o r ->
+  exists r', Sam.reader_header o (Sam.write o r) TEOF = [Rec (Sam.Aln r')] /\ SamSpec.sam_eq r r'.
+Proof. intros H Hc. apply SamProofsC.roundtrip. eapply sam_accepted_ok; eassumption. Qed.
